@@ -44,11 +44,16 @@ def local(tag):
 
 
 def style_decls(el):
+    """CSS declaration list of a style attribute (css-style-attr): comments stand for whitespace, empty declarations are
+    skipped, a later declaration of the same property wins, '!important' is a priority and not part of the value."""
     out = {}
-    for d in (el.get("style") or "").split(";"):
-        if ":" in d:
-            k, _, v = d.partition(":")
-            out[k.strip()] = v.strip()
+    text = re.sub(r"/\*.*?\*/", " ", el.get("style") or "", flags=re.S)
+    for d in text.split(";"):
+        if ":" not in d:
+            continue
+        k, _, v = d.partition(":")
+        v = re.sub(r"\s*!\s*important\s*$", "", v.strip(), flags=re.I)
+        out[k.strip()] = v.strip()
     return out
 
 
